@@ -50,6 +50,15 @@ def main():
         sys.stderr.buffer.write(b'\x80\x81 stderr noise\n' * int(spec.get('noise')))
         sys.stderr.buffer.flush()
     if out == 'timeout':
+        if spec.get('hang_writes'):
+            # a hanging test that keeps producing files in its directory (a build that never finishes)
+            for k in range(30000):
+                try:
+                    with open('obj-%d.tmp' % k, 'w') as f:
+                        f.write('x')
+                except OSError:
+                    pass
+                time.sleep(0.005)
         time.sleep(300)
         sys.exit(1)
     if out == 'slow0':
